@@ -1454,10 +1454,12 @@ def run_context_histories(env, rng, n):
         kv = dict(q.split("=", 1) for q in r.split(" ")[1:] if "=" in q)
         if kv.get("sentinel") != "intact" or kv.get("same") != "1" or kv.get("d") != "ok":
             env.report(dict(kind="generate-then-compress2", params=p, input_hex=x.hex()[:200000], result=r[:300]), key=KEY_COLLECT,
-                       what="after ZSTD_generateSequences the context keeps collecting: a later ZSTD_compress2 on it %s and returns %s bytes where a fresh "
-                            "context returns %s (seqCollector.collectSequences is never cleared)"
-                            % ("writes into the caller's old sequence array (entry %s)" % kv.get("sentinel", "?").split("@")[-1]
-                               if kv.get("sentinel") != "intact" else "leaves the array alone", kv.get("c2"), kv.get("fresh")))
+                       what="after a %s ZSTD_generateSequences the context keeps collecting: a later ZSTD_compress2 on it %s and %s where a fresh "
+                            "context returns %s bytes (seqCollector.collectSequences still set)"
+                            % ("failed" if kv.get("gen", "E").startswith("E") else "successful",
+                               "writes into the caller's old sequence array (entry %s)" % kv.get("sentinel", "?").split("@")[-1]
+                               if kv.get("sentinel") != "intact" else "leaves the array alone",
+                               ("fails with " + kv.get("c2", "?")[1:]) if kv.get("c2", "").startswith("E") else "returns %s bytes" % kv.get("c2"), kv.get("fresh")))
         else:
             ctx.count(("ctx", "collector", "clean", "generate-failed" if kv.get("gen", "E").startswith("E") else "generate-ok"), nontrivial=True)
     # ---- (c)
